@@ -8,7 +8,7 @@
    excludes) the second copy would be refused after the first one was made. *)
 From Coq Require Import List ZArith Bool Arith Lia Permutation.
 From NT Require Import Sx Rose ListFacts RoseFacts Surgery SurgeryFacts Machine WF MachineFacts
-  PreserveSteps PreserveOps PreserveCopy Effects Refusal.
+  PreserveSteps PreserveOps PreserveCopy Effects RefusalC13.
 Import ListNotations.
 
 (* ---- small facts ---- *)
